@@ -234,6 +234,23 @@ func (w *Wal) GetWALStats() uint64 {
 	return w.encodedSize
 }
 
+// checkBlockFits rejects a block length that points beyond the end of the file (a torn or damaged length field),
+// before any buffer of that size is allocated.
+func checkBlockFits(fd *os.File, blockSize uint32) error {
+	st, err := fd.Stat()
+	if err != nil {
+		return err
+	}
+	pos, err := fd.Seek(0, io.SeekCurrent)
+	if err != nil {
+		return err
+	}
+	if int64(blockSize) > st.Size()-pos {
+		return fmt.Errorf("block size %d exceeds the remaining %d bytes of the file", blockSize, st.Size()-pos)
+	}
+	return nil
+}
+
 type DPWalIterator struct {
 	fd           *os.File
 	currentIndex int
@@ -295,6 +312,10 @@ func (it *DPWalIterator) Next() (*WalDatapoint, error) {
 	if blockSize < Uint32Size { // Checking if block size is less than checksum size (4 bytes)
 		log.Errorf("WalIterator Next: invalid block size (%d), less than checksum size", blockSize)
 		return nil, errors.New("invalid block size")
+	}
+	if err := checkBlockFits(it.fd, blockSize); err != nil {
+		log.Errorf("WalIterator Next: %v", err)
+		return nil, err
 	}
 
 	var checksum uint32
@@ -491,6 +512,10 @@ func (it *MNameWalIterator) Next() (*string, error) {
 		log.Errorf("MNameWalIterator Next: invalid block size (%d), less than checksum size", blockSize)
 		return nil, errors.New("invalid block size")
 	}
+	if err := checkBlockFits(it.fd, blockSize); err != nil {
+		log.Errorf("MNameWalIterator Next: %v", err)
+		return nil, err
+	}
 
 	var checksum uint32
 	err = binary.Read(it.fd, binary.LittleEndian, &checksum)
@@ -622,6 +647,10 @@ func (it *MMetaEntryIterator) Next() (*structs.MetricsMeta, error) {
 	if blockSize < Uint32Size {
 		log.Errorf("MetricsMetaWalReader Next: invalid block size (%d), less than checksum size", blockSize)
 		return nil, fmt.Errorf("invalid block size")
+	}
+	if err := checkBlockFits(it.fd, blockSize); err != nil {
+		log.Errorf("MetricsMetaWalReader Next: %v", err)
+		return nil, err
 	}
 
 	var checksum uint32
